@@ -196,6 +196,8 @@ def _memop(rng, pool, aligned, base_reg=31, window=64):
         # top of memory through x0 and a negative offset: the computed address is a negative integer
         base_reg = 0
         off = -rng.randrange(w, window + 1, w if aligned else 1)
+        if rng.random() < 0.6:
+            off = -rng.choice([4, 8, 12, 16]) + (rng.randrange(0, 4, w) if w < 4 and aligned else 0)  # collide often
     if m in LD:
         return {"m": m, "rd": rng.choice(pool), "rs1": base_reg, "imm": off}
     return {"m": m, "rs1": base_reg, "rs2": rng.choice(pool), "imm": off}
@@ -214,7 +216,10 @@ def soup_program(rng, n, aligned=True, ecall=True, jalr=True, pool=None, mem_w=0
             out.append(_memop(rng, pool, aligned, window=window))
         elif k < 0.72:
             tgt = rng.randint(max(0, i - 4), min(n, i + 5))
-            out.append({"m": rng.choice(BRM), "rs1": rs1, "rs2": rs2, "imm": (tgt - i) * 4})
+            imm = (tgt - i) * 4
+            if rng.random() < 0.04:
+                imm += 2  # legal encodable target with pc % 4 == 2: no instruction there, execution ends
+            out.append({"m": rng.choice(BRM), "rs1": rs1, "rs2": rs2, "imm": imm})
         elif k < 0.79:
             tgt = rng.randint(max(0, i - 3), min(n, i + 5))
             out.append({"m": "jal", "rd": rd, "imm": (tgt - i) * 4})
@@ -254,8 +259,15 @@ def structured_program(rng, size=30, aligned=True, faults=False):
             r = rng.random()
             if r < 0.4:
                 out.append(_alu(rng, work))
-            elif r < 0.6:
+            elif r < 0.52:
                 out.append(_memop(rng, work, aligned))
+            elif r < 0.6:
+                # sub-word store, word load of the same word, then arithmetic that overflows 32 bits
+                off = rng.randrange(0, 60, 4)
+                rx, ry = rng.choice(work), rng.choice(work)
+                out.append({"m": rng.choice(["sb", "sh"]), "rs1": 31, "rs2": rx, "imm": off + rng.choice([0, 2])})
+                out.append({"m": "lw", "rd": ry, "rs1": 31, "imm": off})
+                out.append(rng.choice([{"m": "slli", "rd": ry, "rs1": ry, "imm": rng.randint(8, 31)}, {"m": "add", "rd": ry, "rs1": ry, "rs2": ry}, {"m": "sll", "rd": ry, "rs1": ry, "rs2": ry}, {"m": "mul", "rd": ry, "rs1": ry, "rs2": ry}]))
             elif r < 0.7 and depth < 2:
                 cnt = [28, 29, 30][depth]
                 inner = body(rng.randint(1, 4), depth + 1)
@@ -290,6 +302,10 @@ def structured_program(rng, size=30, aligned=True, faults=False):
         main += [{"m": "addi", "rd": 17, "rs1": 0, "imm": rng.choice([10, 93])}, {"m": "ecall"}]
         # younger instructions behind the exit must have no effect
         main += [{"m": "addi", "rd": 1, "rs1": 1, "imm": 77}, {"m": "sw", "rs1": 31, "rs2": 1, "imm": 0}]
+        tail_jump = False
+    elif t < 0.62:
+        # leave the program through a jump far outside: beyond the instruction memory's address range, or below 0
+        main += [rng.choice([{"m": "jal", "rd": 0, "imm": 20000}, {"m": "jal", "rd": 0, "imm": 0x4000}, {"m": "beq", "rs1": 0, "rs2": 0, "imm": -4096}, {"m": "jal", "rd": 0, "imm": -(1 << 19)}])]
         tail_jump = False
     else:
         tail_jump = True
